@@ -219,10 +219,20 @@ func cmdCheck(args []string) int {
 	// informational reachability of returns: reported, never part of the verdict
 	solveAll(infoObls, filepath.Join(workDir, "info"), 2, 16)
 	unreachable := 0
+	retTotal, retDead := map[string]int{}, map[string]int{}
 	for _, o := range infoObls {
+		retTotal[o.Func]++
 		if o.Result.Status == "unsat" {
 			unreachable++
+			retDead[o.Func]++
 			notes = append(notes, fmt.Sprintf("%s: return at %s on path %s is unreachable under the contracts", o.Func, o.Pos, o.Path))
+		}
+	}
+	// vacuity guard: a function none of whose returns is reachable under its contract and its
+	// callees' contracts was verified against contradictory assumptions
+	for f, n := range retTotal {
+		if n > 0 && retDead[f] == n {
+			contractErrs = append(contractErrs, f+": every return is unreachable under the contracts (vacuous verification)")
 		}
 	}
 	// aggregate per obligation ID
